@@ -158,6 +158,19 @@ CLAIMS['C15'] = dict(
           "callVariant produces from the STAR-Fusion GVF is a digestion product of the spec's fused sequence."),
     note="REF base of fusion records is cosmetic and not checked; callVariant soundness is checked for STAR-Fusion output (the three parsers emit identical records).",
     technique="TLA+ definitional spec; TLC validation of CLI outputs and of callVariant peptides", ref='6 C15')
+CLAIMS['C16'] = dict(
+    text=("Rmats.tla defines an rMATS event as two exon chains (inclusion / skipping form, both genomic geometries of A5SS/A3SS), "
+          "'transcript carries a form' (junction coordinates agree, inner exons coincide), the re-spliced exon list of the other "
+          "form and what an Insertion / Deletion / Substitution record denotes on a transcript in gene coordinates (as callVariant "
+          "applies it, REF base included). The real parseRMATS command line is run once per generated event (random genes on both "
+          "strands, isoform sets carrying the inclusion form, the skipping form, both, forms with different outer exon ends, partial "
+          "and unrelated layouts; IJC/SJC around --min-ijc/--min-sjc); the GVF is read back and RmatsTrace has TLC check for every "
+          "record on a transcript that carries one of the forms: Denote(record) = sequence of the re-spliced transcript, the form "
+          "produced is not carried by any annotated isoform, and its read support meets the threshold."),
+    note=("Records on transcripts that carry neither form (partial layouts) are outside the statement and only counted; missing "
+          "records (e.g. MXE uses > for --min-sjc, long A3SS exon being the last exon) are counted as information, not violations; a "
+          "run that validates no record for some event type/strand exits 2 (vacuity guard)."),
+    technique="TLA+ definitional spec of event forms and record denotation; TLC validation of CLI outputs", ref='6 C16')
 CLAIMS['C17'] = dict(
     text=("Parsers.tla defines strand-corrected fragments, the circular sequence (genomic blocks in transcript orientation) and the "
           "back-splice id; the real parseCIRCexplorer command line is run on generated CIRCexplorer2/3 files (every contiguous exon "
